@@ -349,6 +349,7 @@ func (p *Proxy) handleConnectRequest(ctx *Context, req *http.Request, session *S
 		if b[0] == 22 {
 			// Prepend the previously read data to be read again by
 			// http.ReadRequest.
+			session.setPlainTunnel(false)
 			tlsconn := tls.Server(&peekedConn{conn, io.MultiReader(bytes.NewReader(b), bytes.NewReader(buf), conn)}, p.mitm.TLSForHost(req.Host))
 
 			if err := tlsconn.Handshake(); err != nil {
@@ -386,6 +387,9 @@ func (p *Proxy) handleConnectRequest(ctx *Context, req *http.Request, session *S
 			}
 		}
 
+		// Not a TLS handshake: what follows in this tunnel is plain HTTP, whatever
+		// kind of connection the tunnel travels on.
+		session.setPlainTunnel(true)
 		// Prepend the previously read data to be read again by http.ReadRequest.
 		brw.Reader.Reset(io.MultiReader(bytes.NewReader(b), bytes.NewReader(buf), conn))
 		// The request that follows is read by the loop that called us: reading
@@ -517,21 +521,29 @@ func (p *Proxy) handle(ctx *Context, conn net.Conn, brw *bufio.ReadWriter) error
 	link(req, ctx)
 	defer unlink(req)
 
-	if tsconn, ok := conn.(*trafficshape.Conn); ok {
-		wrconn := tsconn.GetWrappedConn()
-		if sconn, ok := wrconn.(*tls.Conn); ok {
+	if session.inPlainTunnel() {
+		// The request was read from a CONNECT tunnel that carries plain HTTP.
+		// That the tunnel itself reached us over a TLS connection (a TLS
+		// listener, a CONNECT inside a decrypted tunnel) does not make it an
+		// https request.
+		session.MarkInsecure()
+	} else {
+		if tsconn, ok := conn.(*trafficshape.Conn); ok {
+			wrconn := tsconn.GetWrappedConn()
+			if sconn, ok := wrconn.(*tls.Conn); ok {
+				session.MarkSecure()
+
+				cs := sconn.ConnectionState()
+				req.TLS = &cs
+			}
+		}
+
+		if tconn, ok := conn.(*tls.Conn); ok {
 			session.MarkSecure()
 
-			cs := sconn.ConnectionState()
+			cs := tconn.ConnectionState()
 			req.TLS = &cs
 		}
-	}
-
-	if tconn, ok := conn.(*tls.Conn); ok {
-		session.MarkSecure()
-
-		cs := tconn.ConnectionState()
-		req.TLS = &cs
 	}
 
 	req.URL.Scheme = "http"
